@@ -92,7 +92,9 @@ impl Generator
 	pub fn for_wasm(&mut self) -> Result<(), anyhow::Error>
 	{
 		unsafe {
-			LLVMSetTarget(self.module, cstr!("wasm32-unknown-wasi"));
+			// The modules that are added later get the same target.
+			self.target_triple = CString::new("wasm32-unknown-wasi")?;
+			LLVMSetTarget(self.module, self.target_triple.as_ptr());
 			let data_layout = "e-p:32:32-i64:64-n32:64-S64";
 			self.data_layout = CString::new(data_layout)?;
 			self.type_of_usize = LLVMInt32TypeInContext(self.context);
